@@ -91,7 +91,7 @@ def discharge(ob, timeout_ms=20000, seed=0, both=False):
     if r == z3.unsat:
         res = {'status': 'proved', 'backend': 'z3', 'time': time.time() - t0}
     elif r == z3.sat:
-        res = {'status': 'refuted', 'backend': 'z3', 'time': time.time() - t0, 'model': s.model()}
+        res = {'status': 'refuted', 'backend': 'z3', 'time': time.time() - t0, 'model': small_model(ob, s)}
     if res is None or both:
         v, msg = run_cvc5(smt2, timeout_ms)
         if res is not None:
@@ -103,7 +103,7 @@ def discharge(ob, timeout_ms=20000, seed=0, both=False):
         if v == 'unsat':
             return {'status': 'proved', 'backend': 'cvc5', 'time': time.time() - t0}
         # sat or unknown from cvc5: give z3 the full budget (also to obtain a model)
-        s2 = _solver(timeout_ms, seed + 7)
+        s2 = _solver(timeout_ms if v != 'sat' else min(timeout_ms, 4000), seed + 7)
         for p in ob.pc:
             s2.add(p)
         s2.add(z3.Not(ob.goal))
@@ -113,11 +113,76 @@ def discharge(ob, timeout_ms=20000, seed=0, both=False):
                 return {'status': 'disagree', 'backend': 'z3+cvc5', 'time': time.time() - t0, 'detail': 'cvc5 says sat, z3 says unsat'}
             return {'status': 'proved', 'backend': 'z3', 'time': time.time() - t0}
         if r2 == z3.sat:
-            return {'status': 'refuted', 'backend': 'z3' + ('+cvc5' if v == 'sat' else ''), 'time': time.time() - t0, 'model': s2.model()}
+            return {'status': 'refuted', 'backend': 'z3' + ('+cvc5' if v == 'sat' else ''), 'time': time.time() - t0, 'model': small_model(ob, s2)}
         if v == 'sat':
-            return {'status': 'refuted', 'backend': 'cvc5', 'time': time.time() - t0, 'detail': 'no model (cvc5 CLI)'}
+            out = {'status': 'refuted', 'backend': 'cvc5', 'time': time.time() - t0, 'detail': 'no model (cvc5 CLI); seed for the native search is a model of the path condition only'}
+            s3 = _solver(3000, seed)
+            for p in ob.pc:
+                s3.add(p)
+            if s3.check() == z3.sat:
+                out['model'] = small_model(ob, s3)
+                out['seed_only'] = True
+            return out
         return {'status': 'unknown', 'backend': 'z3+cvc5', 'time': time.time() - t0, 'detail': f'z3: {s2.reason_unknown()}; cvc5: {msg or v}'}
     return res
+
+
+def _seq_syms(v, heap, out, seen):
+    if isinstance(v, Sym):
+        if v.k == 'bytes' or (isinstance(v.k, tuple) and v.k[0] == 'seq'):
+            out.append(v.t)
+    elif isinstance(v, tuple):
+        for x in v:
+            _seq_syms(x, heap, out, seen)
+    elif isinstance(v, Ref):
+        if v.oid in seen or v.oid not in heap:
+            return
+        seen.add(v.oid)
+        o = heap[v.oid]
+        if isinstance(o, BAObj):
+            _seq_syms(o.val, heap, out, seen)
+        elif isinstance(o, LObj):
+            if o.items is not None:
+                for x in o.items:
+                    _seq_syms(x, heap, out, seen)
+            elif o.sym is not None:
+                out.append(o.sym.t)
+        elif isinstance(o, Obj):
+            for x in o.fields.values():
+                _seq_syms(x, heap, out, seen)
+
+
+def small_model(ob, s):
+    """after sat: prefer a model with short sequences in the pre-state (readable, fast to
+    concretise); falls back to the solver's first model"""
+    m = s.model()
+    pre = ob.info.get('prestate')
+    if pre is None:
+        return m
+    terms, seen = [], set()
+    for v in list(pre['env'].values()) + [pre['ghost']]:
+        _seq_syms(v, pre['heap'], terms, seen)
+    head = ob.info.get('headstate')
+    if head is not None:
+        for v in list(head['env'].values()):
+            _seq_syms(v, head['heap'], terms, seen)
+    if not terms:
+        return m
+    try:
+        for bound in (6, 40, 600):
+            s.push()
+            s.set('timeout', 1500)
+            for t in terms:
+                s.add(z3.Length(t) <= bound)
+            r = s.check()
+            if r == z3.sat:
+                m = s.model()
+                s.pop()
+                break
+            s.pop()
+    except z3.Z3Exception:
+        pass
+    return m
 
 
 # ---------------------------------------------------------------------------
@@ -157,7 +222,7 @@ def model_value(model, v, heap, memo=None):
         elif isinstance(o, MObj):
             r = {'__map__': map_value(model, o)}
         elif isinstance(o, Obj):
-            r = {'__obj__': (o.cls.__module__ + ':' + o.cls.__qualname__) if o.cls is not None else None, 'fields': {}}
+            r = {'__obj__': o.model.name if o.model is not None else ((o.cls.__module__ + ':' + o.cls.__qualname__) if o.cls is not None else None), 'fields': {}}
             memo[v.oid] = r
             for n, x in o.fields.items():
                 r['fields'][n] = model_value(model, x, heap, memo)
@@ -178,10 +243,17 @@ def eval_term(model, t, kind):
         return r.as_long() if z3.is_int_value(r) else 0
     if kind == 'bool':
         return z3.is_true(model.eval(t, model_completion=True))
+    if kind == 'bytes':
+        from .engine import conc_bytes
+
+        v = model.eval(t, model_completion=True)
+        cb = conc_bytes(z3.simplify(v))
+        if cb is not None:
+            return cb
     if kind == 'bytes' or (isinstance(kind, tuple) and kind[0] == 'seq'):
         n = model.eval(z3.Length(t), model_completion=True)
         n = n.as_long() if z3.is_int_value(n) else 0
-        n = min(n, 70000)
+        n = min(n, 4096)
         ek = 'int' if kind == 'bytes' else kind[1]
         items = [eval_term(model, z3.simplify(t[z3.IntVal(i)]), ek) for i in range(n)]
         if kind == 'bytes':
@@ -258,6 +330,70 @@ def _concretise(ob, r):
 
 
 def _work_one(i):
+    """run the discharge of obligation i in a forked child under a hard wall-clock
+    limit (z3's sequence solver does not always honour its own timeout)"""
+    import os
+    import pickle
+    import select
+    import signal
+
+    if not os.environ.get('PYVC_HARD_GUARD'):
+        # fork per obligation costs more than it saves; opt-in only
+        return _work_one_inner(i)
+    limit = _CFG['timeout_ms'] / 1000.0 * 2 + 20
+    rfd, wfd = os.pipe()
+    pid = os.fork()
+    if pid == 0:
+        try:
+            os.close(rfd)
+            r = _work_one_inner(i)
+            data = pickle.dumps(r)
+            with os.fdopen(wfd, 'wb') as f:
+                f.write(data)
+        except BaseException as e:  # noqa: BLE001
+            try:
+                with os.fdopen(wfd, 'wb') as f:
+                    f.write(pickle.dumps({'status': 'unknown', 'backend': '?', 'time': 0.0, 'detail': f'discharge crashed: {e!r}'}))
+            except Exception:
+                pass
+        finally:
+            os._exit(0)
+    os.close(wfd)
+    chunks = []
+    t_end = time.time() + limit
+    timed_out = False
+    with os.fdopen(rfd, 'rb') as f:
+        while True:
+            left = t_end - time.time()
+            if left <= 0:
+                timed_out = True
+                break
+            rl, _, _ = select.select([f], [], [], left)
+            if not rl:
+                timed_out = True
+                break
+            b = os.read(f.fileno(), 1 << 20)
+            if not b:
+                break
+            chunks.append(b)
+    if timed_out:
+        try:
+            os.kill(pid, signal.SIGKILL)
+        except OSError:
+            pass
+    try:
+        os.waitpid(pid, 0)
+    except OSError:
+        pass
+    if timed_out or not chunks:
+        return {'status': 'unknown', 'backend': 'z3+cvc5', 'time': limit, 'detail': 'hard wall-clock limit hit (solver ignored its time limit)'}
+    try:
+        return pickle.loads(b''.join(chunks))
+    except Exception as e:  # noqa: BLE001
+        return {'status': 'unknown', 'backend': '?', 'time': 0.0, 'detail': f'result not transferable: {e!r}'}
+
+
+def _work_one_inner(i):
     ob = _OBS[i]
     try:
         r = discharge(ob, _CFG['timeout_ms'], _CFG.get('seed', 0), _CFG.get('both', False))
